@@ -95,8 +95,8 @@ def run_pairs(pairs):
         a, b = outs[2 * i], outs[2 * i + 1]
         if view(a) != view(b):
             # confirm serially, outside the loaded pool, before anything is reported
-            a = impl.assemble(*jobs[2 * i][0], **jobs[2 * i][1], watchdog=120)
-            b = impl.assemble(*jobs[2 * i + 1][0], **jobs[2 * i + 1][1], watchdog=120)
+            a = impl.assemble(*jobs[2 * i][0], **jobs[2 * i][1], watchdog=60)
+            b = impl.assemble(*jobs[2 * i + 1][0], **jobs[2 * i + 1][1], watchdog=60)
         res.append((a, b))
     return res
 
@@ -106,13 +106,13 @@ def settle(jobs, outs):
     outs = list(outs)
     for i, o in enumerate(outs):
         if o["outcome"] in ("hang", "harness-error"):
-            outs[i] = impl.assemble(*jobs[i][0], **jobs[i][1], watchdog=120)
+            outs[i] = impl.assemble(*jobs[i][0], **jobs[i][1], watchdog=60)
     return outs
 
 
 def differs(fa, fb, fs):
-    a = impl.assemble(fa, fs=fs, watchdog=120)
-    b = impl.assemble(fb, fs=fs, watchdog=120)
+    a = impl.assemble(fa, fs=fs, watchdog=60)
+    b = impl.assemble(fb, fs=fs, watchdog=60)
     return view(a) != view(b)
 
 
@@ -189,7 +189,7 @@ def repeat_family(rep, rng, n_cases, n_end, with_model=True, label="repeat"):
                             impl=brief(a), impl_transformed=brief(b))
             else:
                 m = shrink_repeat(c)
-                ra, rb = impl.assemble([("t.mac", m.repeat_text())], watchdog=120), impl.assemble([("t.mac", m.unrolled_text(True))], watchdog=120)
+                ra, rb = impl.assemble([("t.mac", m.repeat_text())], watchdog=60), impl.assemble([("t.mac", m.unrolled_text(True))], watchdog=60)
                 rep.violate("repeat-unroll:" + digest(m.repeat_text()),
                             "'.repeat n { body }' does not assemble to what the body written out n times assembles to",
                             {"files": [["t.mac", m.repeat_text()]], "files_transformed": [["t.mac", m.unrolled_text(True)]], "transformation": "unroll",
@@ -394,6 +394,11 @@ def transform_sprog(rng, want):
         for pos in sorted(extra, reverse=True):
             p.files[main] = p.files[main][:pos] + [("inc", g)] + p.files[main][pos:]
         return f"once-x{k}", p, q
+    if want == "oncefirst":
+        # the first compilation of a '.once' file contributes everything: same as without the '.once'
+        g = r.choice([inc_ids[0], p.ids[0], p.ids[-1]])
+        p.files[g] = [("once",)] + p.files[g]
+        return "once-first", p, q
     if want == "paste":
         main = p.ids[0]
         first = next(i for i, s in enumerate(p.files[main]) if s[0] == "inc")
@@ -404,7 +409,7 @@ def transform_sprog(rng, want):
 
 
 def structure_family(rep, rng, n_cases, with_model=True):
-    wants = ["concat", "insert", "end", "once", "paste"]
+    wants = ["concat", "insert", "end", "once", "paste", "oncefirst"]
     items = []
     for i in range(n_cases):
         t = transform_sprog(rng, wants[i % len(wants)])
@@ -461,12 +466,26 @@ def rich_family(rep, rng, n_progs):
         pairs.append((fa, fb, fs))
         meta.append(kind)
 
+    # programs that take seconds to assemble (long address-dependent chains before the base is known) are
+    # a performance matter, not this property's: screen them out so that the sweep stays within its budget
+    progs = []
+    for i in range(n_progs):
+        progs.append([proggen.gen_program(rng, prof_multi), proggen.gen_program(rng, prof_one), proggen.gen_program(rng, prof_cut)])
+    flatp = [p for tr in progs for p in tr]
+    pre = impl.pmap("assemble", [((p.files,), {"fs": p.fs, "watchdog": 4}) for p in flatp])
+    slow = {id(p) for p, o in zip(flatp, pre) if o["outcome"] in ("hang", "harness-error")}
+    if slow:
+        rep.count("rich:dropped-slow-program", len(slow))
     for i in range(n_progs):
         # concat
-        p = proggen.gen_program(rng, prof_multi)
+        p = progs[i][0]
+        if id(p) in slow:
+            continue
         cat = "".join(t for _, t in p.files)
         add("concat", p.files, [("file0.mac", cat)], dict(p.fs))
-        p = proggen.gen_program(rng, prof_one)
+        p = progs[i][1]
+        if id(p) in slow or id(progs[i][2]) in slow:
+            continue
         fs = dict(p.fs)
         # insert -> .byte (top level statements of the linked files)
         changed = False
@@ -485,7 +504,7 @@ def rich_family(rep, rng, n_progs):
         if changed:
             add("insert", p.files, newfiles, fs)
         # .end in a linked file: cut the rest of that file (no forward references, so the cut text still assembles)
-        p = proggen.gen_program(rng, prof_cut)
+        p = progs[i][2]
         fs = dict(p.fs)
         fi = rng.randrange(len(p.files))
         stmts = p.stmts[fi]
@@ -519,6 +538,9 @@ def rich_family(rep, rng, n_progs):
                 lines.insert(ep, s.text)
             many = p.files[:fi2] + [(p.files[fi2][0], "\n".join(lines) + "\n")] + p.files[fi2 + 1:]
             add(f"once-x{kk}", many, p.files, fs_once)
+            # ... and the first inclusion contributes what the file without '.once' contributes
+            pairs.append((p.files, p.files, None))
+            meta.append(("once-first", fs_once, fs))
             # paste a definition-free included file in place
             if all(b.kind not in ("label", "assign", "locallabel") for b in body):
                 lines = [x.text for x in stmts2]
@@ -538,8 +560,8 @@ def rich_family(rep, rng, n_progs):
     for i, ((fa, fb, fs), m) in enumerate(zip(pairs, meta)):
         a, b = outs[2 * i], outs[2 * i + 1]
         if view(a) != view(b):
-            a = impl.assemble(*jobs[2 * i][0], **jobs[2 * i][1], watchdog=120)
-            b = impl.assemble(*jobs[2 * i + 1][0], **jobs[2 * i + 1][1], watchdog=120)
+            a = impl.assemble(*jobs[2 * i][0], **jobs[2 * i][1], watchdog=60)
+            b = impl.assemble(*jobs[2 * i + 1][0], **jobs[2 * i + 1][1], watchdog=60)
         kind = m[0] if isinstance(m, tuple) else m
         rep.add_eval(2)
         rep.count(f"rich:{kind}:{a['outcome']}")
